@@ -540,7 +540,63 @@ func c11TransferCase(r *verifkit.Run, rng *rand.Rand, ci int, dir string) {
 			r.Violation("transfer-validate-import-disagree:"+f.class, wit)
 		}
 		if ierr == nil && !f.forged {
-			r.Violation("transfer-corrupt-bundle-accepted:"+f.class, wit)
+			if f.file != "manifest.json" {
+				// data files are bound by the SHA-256 in the manifest: any
+				// change of their bytes must be refused
+				r.Violation("transfer-corrupt-bundle-accepted:"+f.class, wit)
+			} else {
+				// manifest.json is the unauthenticated JSON root: a mutation can
+				// be semantically neutral (key case, whitespace, a byte nobody
+				// interprets). Accepted is fine iff the resulting target is
+				// exactly what the clean bundle produces.
+				mut, cl := f.tree["manifest.json"], clean["manifest.json"]
+				at := c11FirstDiff(cl, mut)
+				ctxOf := func(b []byte) string {
+					lo, hi := at-40, at+40
+					if lo < 0 {
+						lo = 0
+					}
+					if hi > len(b) {
+						hi = len(b)
+					}
+					if lo > hi {
+						return ""
+					}
+					return string(b[lo:hi])
+				}
+				wit["manifest_clean_context"], wit["manifest_mutated_context"], wit["first_diff_at"] = ctxOf(cl), ctxOf(mut), at
+				if cerr := ft.Close(); cerr != nil {
+					r.Inconclusive("close fault NodeStore: " + cerr.Error())
+					return
+				}
+				diff := ""
+				if rep, verr := verify(srcOpts, ftOpts); verr != nil {
+					diff = "VerifyStores: " + verr.Error()
+				} else if !rep.Equal {
+					diff = fmt.Sprintf("VerifyStores mismatches: %+v", rep.Mismatches)
+				} else if _, eerr := export(ftOpts, filepath.Join(dir, "bundle3")); eerr != nil {
+					diff = "re-export: " + eerr.Error()
+				} else if again, terr := c11Tree(filepath.Join(dir, "bundle3")); terr != nil {
+					diff = "re-export read: " + terr.Error()
+				} else {
+					diff = c11BundleDiff(clean, again)
+				}
+				os.RemoveAll(filepath.Join(dir, "bundle3"))
+				if diff == "" {
+					r.Count("transfer.neutral_manifest_mutations_accepted", 1)
+					r.Count("transfer.neutral_manifest_mutations_accepted."+f.class, 1)
+					r.Note("neutral_manifest_mutation_example", wit)
+				} else {
+					wit["state_diff"] = diff
+					r.Violation("transfer-corrupt-bundle-accepted:"+f.class, wit)
+				}
+				os.RemoveAll(filepath.Join(dir, "ft"))
+				if ft, err = db.OpenNodeStore(ftOpts); err != nil {
+					r.Inconclusive("reopen fault NodeStore: " + err.Error())
+					return
+				}
+				continue
+			}
 		}
 		empty, what := c11TargetEmpty(ft)
 		if ierr != nil && !empty {
